@@ -119,6 +119,9 @@ def c05_echo(v):  # type: ignore[no-untyped-def]
     return v
 
 
+C05_LATE: dict = {}
+
+
 def c05_make_exc(name: str, args: list) -> BaseException:
     import builtins
 
@@ -128,6 +131,13 @@ def c05_make_exc(name: str, args: list) -> BaseException:
         return ProgError(*args)
     if name == "RetryError":
         return RetryError(*args)
+    if name.startswith("Late:"):
+        # a PynencError subclass that comes into existence only now (a plugin / task module imported late), i.e. after other
+        # failures have already been read back in this process
+        from pynenc.exceptions import PynencError
+
+        cls = C05_LATE.get(name) or C05_LATE.setdefault(name, type("C05Late" + "".join(ch for ch in name[5:] if ch.isalnum()), (PynencError,), {}))
+        return cls(*args)
     return getattr(builtins, name)(*args)
 
 
